@@ -31,6 +31,8 @@ def body(chk, db, cfgname):
     P = F.name_atom(fld(GFP + "::Term::Pole"), "P")
     z = F.name_atom(("param", t.params[0]["d"], t.params[0]["n"]), "z")
     rets = [j for j, n in t.walk(t.body) if n["k"] == "return"]
+    if len(rets) != 1:
+        raise AnalysisBroken(GFP + "::Term::operator()(z): expected one return (several returns are not analysed)")
     got = F.conv(tctx.key(t.nodes[rets[0]]["sub"]))
     if F.equal(got, R / (z - P)):
         r1.ok(GFP + "::Term::operator()(z)", t.loc(), "== R/(z-P)", cfgname)
@@ -81,6 +83,8 @@ def body(chk, db, cfgname):
     cmpf = db.fn(GFP + "::Term::Compare::operator()", nparams=2)
     cctx2 = Ctx(cmpf, db)
     rets = [j for j, n in cmpf.walk(cmpf.body) if n["k"] == "return"]
+    if len(rets) != 1:
+        raise AnalysisBroken(GFP + "::Term::Compare: expected one return (several returns are not analysed)")
     k = cctx2.key(cmpf.nodes[rets[0]]["sub"])
     t1, t2 = [("param", p["d"], p["n"]) for p in cmpf.params]
     pole = lambda t_: ("field", GFP + "::Term::Pole", t_)
@@ -102,6 +106,8 @@ def body(chk, db, cfgname):
     neg = db.fn(GFP + "::Term::IsNegligible::operator()", nparams=2)
     nctx = Ctx(neg, db)
     rets = [j for j, n in neg.walk(neg.body) if n["k"] == "return"]
+    if len(rets) != 1:
+        raise AnalysisBroken(GFP + "::Term::IsNegligible: expected one return (several returns are not analysed)")
     k = nctx.key(neg.nodes[rets[0]]["sub"])
     tt, dv = [("param", p["d"], p["n"]) for p in neg.params]
     site = GFP + "::Term::IsNegligible"
